@@ -107,6 +107,19 @@ def derived_vars(func, seed_pred, through_calls=True):
 
 
 # ---- interprocedural summaries --------------------------------------------------
+# external functions that run their callback argument to completion before returning
+MUST_CALLBACK = {'pthread_once'}
+# external functions that only register their callback arguments for later
+DEFERRED_CALLBACK = {'pthread_atfork', 'atexit', 'on_exit', 'signal', 'sigaction', 'pthread_key_create',
+                     '__register_atfork'}
+
+
+def _live_callbacks(cs):
+    if any(isinstance(t, str) and t[4:] in DEFERRED_CALLBACK for t in cs.targets):
+        return []
+    return list(cs.callbacks)
+
+
 class Summaries:
     """must-call / may-call of named events over the call graph."""
 
@@ -138,7 +151,7 @@ class Summaries:
         self._may[key] = False  # cycle guard (least fixpoint)
         res = False
         for cs in self.cg.callees(func):
-            for t in cs.targets:
+            for t in list(cs.targets) + _live_callbacks(cs):
                 if self._tname(t) in names:
                     res = True
                 elif not isinstance(t, str) and self.may_call(t, names):
@@ -149,7 +162,10 @@ class Summaries:
     def elem_may(self, func, elem, names):
         if elem.k != 'CallExpr':
             return False
-        for t in self.targets(func, elem):
+        cs = self.site(func, elem)
+        if cs is None:
+            return False
+        for t in list(cs.targets) + _live_callbacks(cs):
             if self._tname(t) in names:
                 return True
             if not isinstance(t, str) and self.may_call(t, names):
@@ -170,13 +186,18 @@ class Summaries:
     def elem_must(self, func, elem, names):
         if elem.k != 'CallExpr':
             return False
-        ts = self.targets(func, elem)
-        if not ts:
+        cs = self.site(func, elem)
+        if cs is None or not cs.targets:
             return False
-        for t in ts:
+        for t in cs.targets:
             if self._tname(t) in names:
                 continue
-            if isinstance(t, str) or not self.must_call(t, names):
+            if isinstance(t, str):
+                if t[4:] in MUST_CALLBACK and cs.callbacks and \
+                        all(self.must_call(cb, names) for cb in cs.callbacks):
+                    continue
+                return False
+            if not self.must_call(t, names):
                 return False
         return True
 
